@@ -5,6 +5,7 @@ import Upf.Model.AgentMod
 import Upf.Proofs.BessAddDel
 import Upf.Proofs.BessImage
 import Upf.Proofs.History
+import Upf.Proofs.ModMix
 import Upf.Proofs.GenEqAgent
 /-!
 # C03 — BESS tables are exactly the image of the live sessions' rules
@@ -130,7 +131,7 @@ envelope `EnvOK` is the one of the property: a session that an establishment sto
 session has (unambiguous rule sets; C07 gives the SEID part per association). Session Modifications that carry Update FAR IEs only
 (handover, idle / active transitions, action changes), Remove PDR / FAR / QER IEs only, or Create PDR / FAR / QER IEs only are inside the theorem, for sessions whose
 session-QER marking is stable (and, for removals, whose rules have pairwise different keys);
-modifications that update PDRs or QERs, or mix kinds of IEs, are outside it (open findings: key-changing Update PDR, QER relabelling)
+modifications that mix these kinds of IEs are reduced to them (`mixed_modification_is_three_messages`); modifications that update PDRs or QERs are outside it (open findings: key-changing Update PDR, QER relabelling)
 and stay decided per observed history. -/
 
 theorem image_after_establishment (cfg : Cfg) (w : World) (a lseid : Nat) (r : EstReq) (hI : Inv cfg w)
@@ -176,6 +177,17 @@ theorem image_after_creation (cfg : Cfg) (w : World) (a : Nat) (r : ModReq) (s0 
     (henv : ∀ cp pool1 cf, parsePdrs r.seid (fseidIPOf' r) (w.conn a).apps r.createPdrs w.pool = .ok (cp, pool1) →
       mapFars cfg r.seid (fseidIPOf' r) false r.createFars = .ok cf → AddEnv cfg w r s0 cp cf) :
     Inv cfg (modify cfg w a r).world := (modAdd_inv cfg w a r s0 hI hW hr h henv).1
+
+/-- **one message = three messages**: an accepted Session Modification that creates rules, updates FARs and removes rules in one message
+(no Update PDR / Update QER) leaves store, tables, TEIDs and pool exactly as its create part, its Update FAR part and its remove part sent
+one after the other would — so it keeps the tables the image of the store whenever the three parts are in the envelope -/
+theorem mixed_modification_is_three_messages (cfg : Cfg) (w : World) (a : Nat) (r : ModReq) (s0 : Session) (hm : MixedOk cfg w a r s0) :
+    (modify cfg w a r).world = [Ev.modAdd a (rAdd r), Ev.modFar a (rUpd r), Ev.modRem a (rRem r)].foldl (stepEv cfg) w := hm.world
+
+theorem image_after_mixed_modification (cfg : Cfg) (w : World) (a : Nat) (r : ModReq) (s0 : Session) (hm : MixedOk cfg w a r s0)
+    (hI : Inv cfg w) (hW : FarWf w) (henv : EnvOK cfg w [Ev.modAdd a (rAdd r), Ev.modFar a (rUpd r), Ev.modRem a (rRem r)]) :
+    Inv cfg (modify cfg w a r).world := by
+  rw [hm.world]; exact (inv_run cfg _ w hI hW henv).1
 
 /-- what `image_after_far_update` asks of the stored FARs is an invariant, not an assumption: along every history every stored FAR carries
 the SEID of its session (`parseFAR` writes it, `UpdateFAR` keeps it) -/
@@ -256,6 +268,47 @@ example : (modify exCfg exW1 0 exAdd).reply.cause = 1 ∧ (modify exCfg exW1 0 e
     (modify exCfg exW1 0 exAdd).world.tables.far.length = 3 := by decide +kernel
 end
 
+
+section
+open Agent
+-- one message: create the uplink rule of `exAdd`, hand FAR 2 over to another gNB, remove PDR 1 with FAR 1
+def exMixFar : FarIE := { id := 2, action := 2, fwd := some { dst := some 0, ohc := some (2001, 0xC612010A) } }
+def exMix : ModReq := { seid := 77, createPdrs := [exAddPdr], createFars := [exAddFar], updateFars := [exMixFar], removePdrs := [1], removeFars := [1] }
+def exS0 : Session := ((exW1.conn 0).sessions.head?).getD { lseid := 0, rseid := 0 }
+def exUF : List Far := match mapFars exCfg 77 0 true exMix.updateFars with | .ok uf => uf | .error _ => []
+def exRP : List Pdr × List Pdr := (removeAll (·.pdrID) (exS0.pdrs ++ exCP) exMix.removePdrs).getD ([], [])
+def exRF : List Far × List Far := (removeAll (·.farID) (updFars (exS0.fars ++ exCF) exUF).1 exMix.removeFars).getD ([], [])
+def exRQ : List Qer × List Qer := (removeAll (·.qerID) (exS0.qers ++ createdQers exMix) exMix.removeQers).getD ([], [])
+example : (modify exCfg exW1 0 exMix).reply.cause = 1 ∧ (modify exCfg exW1 0 exMix).world.tables.pdr.length = 2 ∧
+    (modify exCfg exW1 0 exMix).world.tables.far.length = 2 := by decide +kernel
+example : MixedOk exCfg exW1 0 exMix exS0 := by
+  have hpar : ∃ v, parsePdrs exMix.seid (fseidIPOf' exMix) (exW1.conn 0).apps exMix.createPdrs exW1.pool = .ok v := by
+    cases h : parsePdrs exMix.seid (fseidIPOf' exMix) (exW1.conn 0).apps exMix.createPdrs exW1.pool with
+    | ok v => exact ⟨v, rfl⟩
+    | error e =>
+      have : exCP.length = 1 := by decide +kernel
+      simp [exCP, exAdd, exMix, fseidIPOf'] at this h
+      simp [h] at this
+  obtain ⟨v, hv⟩ := hpar
+  have hcp : v.1 = exCP := by
+    have h' : parsePdrs 77 0 (exW1.conn 0).apps exAdd.createPdrs exW1.pool = .ok v := hv
+    simp [exCP, h']
+  refine ⟨⟨rfl, rfl⟩, by decide +kernel, exCP, v.2, exCF, exUF, exRP.1, exRP.2, exRF.1, exRF.2, exRQ.1, exRQ.2, ?_, ?_, ?_, ?_⟩
+  · rw [hv, ← hcp]
+  · show mapFars exCfg 77 0 false exAdd.createFars = .ok exCF
+    cases h : mapFars exCfg 77 0 false exAdd.createFars with
+    | ok cf => simp [exCF, h]
+    | error e =>
+      have : exCF.length = 1 := by decide +kernel
+      simp [exCF, h] at this
+  · show mapFars exCfg 77 0 true exMix.updateFars = .ok exUF
+    cases h : mapFars exCfg 77 0 true exMix.updateFars with
+    | ok uf => simp [exUF, h]
+    | error e =>
+      have : exUF.length = 1 := by decide +kernel
+      simp [exUF, h] at this
+  · decide +kernel
+end
 
 /-! ### ties to the regenerated leaf functions (T1): the model's action encoding and allocation test ARE the Go functions -/
 
